@@ -13,7 +13,9 @@ use simkit::Rng;
 use std::collections::BTreeMap;
 use std::sync::{Arc, Mutex};
 
-pub const EFFECTS: bool = cfg!(feature = "world_fx");
+pub const EFFECTS: bool = cfg!(any(feature = "world_fx", feature = "world_ax"));
+/// the library's `axum` feature: default getters read `http::request::Parts` from the reactive context
+pub const AXUM: bool = cfg!(feature = "world_ax");
 /// the library's `cookie` feature (off in the world_nc build): without it cookies are never read or written
 pub const COOKIES: bool = !cfg!(feature = "world_nc");
 const DEFAULT_COOKIE: &str = "i18n_pref_locale";
@@ -25,7 +27,10 @@ pub enum Op {
     /// `via_provider`: through `provide_i18n_context_with_options_inner` (what `<I18nContextProvider>` calls) instead of init + provide_context
     CreateMain { enable_cookie: bool, cookie_name: Option<String>, via_provider: bool },
     /// `parent`: index into live contexts (modulo); `initial`: 0 none, 1 const, 2 wired
-    CreateSub { parent: usize, initial: u8, init_locale: usize, sig: usize, cookie_name: Option<String> },
+    /// `via`: 0 `init_i18n_subcontext_with_options` + provide_context, 1 the deprecated `provide_i18n_subcontext`,
+    /// 2 `i18n_sub_context_provider_island` (what the island `<I18nSubContextProvider>` calls);
+    /// `in_region`: created inside a reactive region (a `RenderEffect`, as `{move || view!{..}}`, `<Show>` or an outlet are)
+    CreateSub { parent: usize, initial: u8, init_locale: usize, sig: usize, cookie_name: Option<String>, via: u8, in_region: bool },
     NewSignal { l: usize },
     Scope { view: usize, which: usize },
     Set { view: usize, l: usize },
@@ -47,12 +52,12 @@ impl Op {
     pub fn to_json(&self) -> Value {
         match self {
             Op::CreateMain { enable_cookie, cookie_name, via_provider } => json!({"op": "create_main", "enable_cookie": enable_cookie, "cookie_name": cookie_name, "via_provider": via_provider}),
-            Op::CreateSub { parent, initial, init_locale, sig, cookie_name } => json!({"op": "create_sub", "parent": parent, "initial": match initial { 0 => "none", 1 => "const", _ => "wired" }, "init_locale": LOCS[*init_locale % 5], "sig": sig, "cookie_name": cookie_name}),
-            Op::NewSignal { l } => json!({"op": "new_signal", "l": LOCS[*l % 5]}),
+            Op::CreateSub { parent, initial, init_locale, sig, cookie_name, via, in_region } => json!({"op": "create_sub", "parent": parent, "initial": match initial { 0 => "none", 1 => "const", _ => "wired" }, "init_locale": LOCS[*init_locale % LOCS.len()], "sig": sig, "cookie_name": cookie_name, "via": match via { 0 => "init", 1 => "deprecated_provide", _ => "island_fn" }, "in_region": in_region}),
+            Op::NewSignal { l } => json!({"op": "new_signal", "l": LOCS[*l % LOCS.len()]}),
             Op::Scope { view, which } => json!({"op": "scope", "view": view, "which": which}),
-            Op::Set { view, l } => json!({"op": "set", "view": view, "l": LOCS[*l % 5]}),
-            Op::SetUntracked { view, l } => json!({"op": "set_untracked", "view": view, "l": LOCS[*l % 5]}),
-            Op::WriteWired { sig, l } => json!({"op": "write_wired", "sig": sig, "l": LOCS[*l % 5]}),
+            Op::Set { view, l } => json!({"op": "set", "view": view, "l": LOCS[*l % LOCS.len()]}),
+            Op::SetUntracked { view, l } => json!({"op": "set_untracked", "view": view, "l": LOCS[*l % LOCS.len()]}),
+            Op::WriteWired { sig, l } => json!({"op": "write_wired", "sig": sig, "l": LOCS[*l % LOCS.len()]}),
             Op::MakeReader { view, which } => json!({"op": "make_reader", "view": view, "which": which}),
             Op::Read { reader } => json!({"op": "read", "reader": reader}),
             Op::Get { view } => json!({"op": "get", "view": view}),
@@ -70,7 +75,7 @@ impl Op {
         let name = |k: &str| v[k].as_str().map(String::from);
         Some(match v["op"].as_str()? {
             "create_main" => Op::CreateMain { enable_cookie: v["enable_cookie"].as_bool().unwrap_or(true), cookie_name: name("cookie_name"), via_provider: v["via_provider"].as_bool().unwrap_or(false) },
-            "create_sub" => Op::CreateSub { parent: u("parent"), initial: match v["initial"].as_str()? { "none" => 0, "const" => 1, _ => 2 }, init_locale: l("init_locale"), sig: u("sig"), cookie_name: name("cookie_name") },
+            "create_sub" => Op::CreateSub { parent: u("parent"), initial: match v["initial"].as_str()? { "none" => 0, "const" => 1, _ => 2 }, init_locale: l("init_locale"), sig: u("sig"), cookie_name: name("cookie_name"), via: match v["via"].as_str() { Some("deprecated_provide") => 1, Some("island_fn") => 2, _ => 0 }, in_region: v["in_region"].as_bool().unwrap_or(false) },
             "new_signal" => Op::NewSignal { l: l("l") },
             "scope" => Op::Scope { view: u("view"), which: u("which") },
             "set" => Op::Set { view: u("view"), l: l("l") },
@@ -95,6 +100,9 @@ pub struct PageLoad {
     /// Cookie header sent with this request; `None` = derive from the jar as a browser would
     pub cookie_header: Option<String>,
     pub accept_language: String,
+    /// (axum build only) no getters are injected: the request is an `http::request::Parts` in the reactive context and
+    /// Set-Cookie goes to `leptos_axum::ResponseOptions`
+    pub default_getters: bool,
     pub ops: Vec<Op>,
 }
 
@@ -111,7 +119,7 @@ impl Plan {
             "jar": self.jar,
             "policy": self.policy.name(),
             "schedule": schedule,
-            "loads": self.loads.iter().map(|l| json!({"cookie_header": l.cookie_header, "accept_language": l.accept_language, "ops": l.ops.iter().map(|o| o.to_json()).collect::<Vec<_>>()})).collect::<Vec<_>>(),
+            "loads": self.loads.iter().map(|l| json!({"cookie_header": l.cookie_header, "accept_language": l.accept_language, "default_getters": l.default_getters, "ops": l.ops.iter().map(|o| o.to_json()).collect::<Vec<_>>()})).collect::<Vec<_>>(),
         })
     }
     pub fn from_json(v: &Value) -> Option<Plan> {
@@ -122,6 +130,7 @@ impl Plan {
             .map(|l| PageLoad {
                 cookie_header: l["cookie_header"].as_str().map(String::from),
                 accept_language: l["accept_language"].as_str().unwrap_or("").to_string(),
+                default_getters: l["default_getters"].as_bool().unwrap_or(false),
                 ops: l["ops"].as_array().map(|a| a.iter().filter_map(Op::from_json).collect()).unwrap_or_default(),
             })
             .collect();
@@ -135,9 +144,11 @@ impl Plan {
 const ACCEPT_POOL: &[&str] = &[
     "", "fr", "de", "en", "pt-BR", "fr-CA", "fr-CA,fr;q=0.9,en;q=0.8", "es,fr;q=0.9", "es,it", "de-AT,de;q=0.9", "pt,en;q=0.5",
     "*", "es,*;q=0.1", "zz-ZZ,pt-BR;q=0.8", "en-US,en;q=0.9", "fr-FR", "not a language,de", ";q=1,fr", "de;q=0.9;x=y",
+    "pt-br", "zh", "zh-Hant", "zh-Hant-TW", "zh-Hant-HK,zh;q=0.8", "zh-CN", "zh-Hans-CN,en;q=0.5", "es,zh-Hant-TW;q=0.7", "fr-CA-x-private", "ar", "ar-EG,en;q=0.5", "he,ar;q=0.3",
 ];
 const ACCEPT_POOL_OWS: &[&str] = &["es, fr", "fr-CA, fr;q=0.9, en;q=0.8", "it , de", "es,\tpt-BR"];
-const COOKIE_VALUES: &[&str] = &["en", "fr", "fr-CA", "de", "pt-BR", " fr", "de ", "xx", "", "fr_CA", "en-", "french", "e", "1"];
+// "pt-BR" is the canonical spelling of the configured `pt-br`: not a configured locale name
+const COOKIE_VALUES: &[&str] = &["en", "fr", "fr-CA", "de", "pt-br", "zh", "zh-Hant", "ar", "pt-BR", "zh-hant", " fr", "de ", "xx", "", "fr_CA", "en-", "french", "e", "1"];
 const COOKIE_NAMES: &[&str] = &["sub_locale", "other_pref", "i18n_pref_locale2"];
 
 pub fn generate(rng: &mut Rng, ows: bool) -> Plan {
@@ -182,16 +193,18 @@ pub fn generate(rng: &mut Rng, ows: bool) -> Plan {
                 0 => Op::CreateSub {
                     parent: rng.below(4),
                     initial: rng.below(3) as u8,
-                    init_locale: rng.below(5),
+                    init_locale: rng.below(LOCS.len()),
                     sig: rng.below(3),
                     cookie_name: if rng.chance(1, 3) { Some(rng.pick(COOKIE_NAMES).to_string()) } else { None },
+                    via: if rng.chance(1, 4) { 1 + rng.below(2) as u8 } else { 0 },
+                    in_region: rng.chance(1, 5),
                 },
-                1 => Op::NewSignal { l: rng.below(5) },
+                1 => Op::NewSignal { l: rng.below(LOCS.len()) },
                 2 => Op::Scope { view: rng.below(8), which: rng.below(8) },
-                3 | 4 => Op::Set { view: rng.below(8), l: rng.below(5) },
-                5 => Op::SetUntracked { view: rng.below(8), l: rng.below(5) },
-                6 => Op::WriteWired { sig: rng.below(3), l: rng.below(5) },
-                7 => Op::MakeReader { view: rng.below(8), which: rng.below(12) },
+                3 | 4 => Op::Set { view: rng.below(8), l: rng.below(LOCS.len()) },
+                5 => Op::SetUntracked { view: rng.below(8), l: rng.below(LOCS.len()) },
+                6 => Op::WriteWired { sig: rng.below(3), l: rng.below(LOCS.len()) },
+                7 => Op::MakeReader { view: rng.below(8), which: rng.below(14) },
                 8 => {
                     if rng.chance(1, 2) {
                         Op::Resolve { ctx: rng.below(4), enable_cookie: rng.chance(4, 5), cookie_name: if rng.chance(1, 3) { Some(rng.pick(COOKIE_NAMES).to_string()) } else { None } }
@@ -213,7 +226,7 @@ pub fn generate(rng: &mut Rng, ows: bool) -> Plan {
             };
             ops.push(op);
         }
-        loads.push(PageLoad { cookie_header, accept_language: accept, ops });
+        loads.push(PageLoad { cookie_header, accept_language: accept, default_getters: AXUM && rng.chance(2, 3), ops });
     }
     let policy = match rng.below(6) {
         0 => Policy::Fifo,
@@ -231,8 +244,18 @@ fn split_accept(header: &str) -> Vec<String> {
     header.split(',').map(|e| e.split(';').next().unwrap_or("").trim_matches(|c| c == ' ' || c == '\t').to_string()).filter(|e| !e.is_empty()).collect()
 }
 
+pub fn dump_best_match() {
+    for h in ACCEPT_POOL.iter().chain(ACCEPT_POOL_OWS) {
+        println!("{h:?} -> {}", LOCS[resolve_header(h)]);
+    }
+}
+
 fn resolve_header(accept: &str) -> usize {
-    // matching itself is the library's own (C12 is not re-judged here)
+    // headers with a hand-audited best match are judged against it; for the rest the matching is the library's own
+    // (C12 is not re-judged here)
+    if let Some(l) = crate::common::audited_best_match(accept) {
+        return l;
+    }
     let list = split_accept(accept);
     loc_index(<Locale as leptos_i18n::Locale>::find_locale(&list))
 }
@@ -343,6 +366,11 @@ struct Page {
     cookie_header: String,
     accept: String,
     root: Owner,
+    /// no getters injected (axum build): the library's default getters find the request in the reactive context
+    default_getters: bool,
+    /// reactive regions and island views created by the page: kept alive until the page is disposed
+    keep: Vec<Box<dyn std::any::Any>>,
+    region_builds: Vec<(usize, Arc<std::sync::atomic::AtomicUsize>)>,
 }
 
 impl Page {
@@ -356,6 +384,9 @@ impl Page {
         (0..self.readers.len()).filter(|i| self.ctxs[self.readers[*i].ctx].alive).collect()
     }
     fn cookie_opts(&self) -> CookieOptions<Locale> {
+        if self.default_getters {
+            return CookieOptions::default();
+        }
         let header = self.cookie_header.clone();
         let emitted = self.emitted.clone();
         CookieOptions::<Locale>::default().ssr_cookies_header_getter(move || Some(header.clone())).ssr_set_cookie(move |c| {
@@ -363,6 +394,9 @@ impl Page {
         })
     }
     fn locale_opts(&self) -> UseLocalesOptions {
+        if self.default_getters {
+            return UseLocalesOptions::default();
+        }
         let accept = self.accept.clone();
         UseLocalesOptions::default().ssr_lang_header_getter(move || Some(accept.clone()))
     }
@@ -418,7 +452,37 @@ pub fn execute(plan: &Plan, rng: &mut Rng) -> Outcome {
             cookie_header: header.clone(),
             accept: load.accept_language.clone(),
             root: root.clone(),
+            default_getters: AXUM && load.default_getters,
+            keep: vec![],
+            region_builds: vec![],
         };
+        #[cfg(feature = "world_ax")]
+        let response_options = leptos_axum::ResponseOptions::default();
+        #[cfg(feature = "world_ax")]
+        if page.default_getters {
+            // what leptos_axum's handlers provide before rendering the app
+            let mut builder = http::Request::builder().uri("/");
+            // a browser sends no Cookie header at all for an empty jar
+            if !page.cookie_header.is_empty() {
+                builder = builder.header(http::header::COOKIE, page.cookie_header.as_str());
+            }
+            if !page.accept.is_empty() {
+                builder = builder.header(http::header::ACCEPT_LANGUAGE, page.accept.as_str());
+            }
+            match builder.body(()) {
+                Ok(req) => {
+                    let parts = req.into_parts().0;
+                    let ro = response_options.clone();
+                    root.with(|| {
+                        provide_context(parts);
+                        provide_context(ro);
+                    });
+                    stats.probe("page_load_with_default_getters");
+                }
+                // a header value http refuses (control characters): fall back to injected getters for this load
+                Err(_) => page.default_getters = false,
+            }
+        }
         executed_loads.push(json!({"cookie_header": header, "accept_language": load.accept_language}));
         let mut abort_load = false;
         for (oi, op) in load.ops.iter().enumerate() {
@@ -499,10 +563,25 @@ pub fn execute(plan: &Plan, rng: &mut Rng) -> Outcome {
                         }
                     }
                 }
-                Op::CreateSub { parent, initial, init_locale, sig, cookie_name } => {
+                Op::CreateSub { parent, initial, init_locale, sig, cookie_name, via, in_region } => {
                     let live = page.live_ctxs();
                     let parent_idx = pick_mod(&live, *parent);
                     let wired_sig = if *initial == 2 { pick_mod(&(0..page.sigs.len()).collect::<Vec<_>>(), *sig) } else { None };
+                    // the deprecated function and the island provider take no getters: they only see the request through the
+                    // default getters, so without those they are only used below a parent (no header resolution involved)
+                    let mut via = *via;
+                    if via != 0 && parent_idx.is_none() && !page.default_getters {
+                        via = 0;
+                    }
+                    if via == 2 && *initial == 2 {
+                        via = 0; // the island provider takes a plain locale, not a signal
+                    }
+                    // the deprecated function takes no cookie name
+                    let cookie_name: Option<String> = if via == 1 { None } else { cookie_name.clone() };
+                    let cookie_name = &cookie_name;
+                    // cookies the sub-context can see: through injected getters (via 0), or through the default getters
+                    let cookie_visible = via == 0 || page.default_getters;
+                    let in_region = *in_region && EFFECTS;
                     if *initial == 2 && wired_sig.is_none() {
                         executed = false;
                     } else if parent_idx.is_none() && !page.ctxs.is_empty() {
@@ -514,11 +593,18 @@ pub fn execute(plan: &Plan, rng: &mut Rng) -> Outcome {
                         };
                         let wired_rw = wired_sig.map(|w| page.sigs[w].sig);
                         let (initial_kind, init_l) = (*initial, loc(*init_locale));
-                        let copts = page.cookie_opts();
-                        let lopts = page.locale_opts();
                         let cname = cookie_name.clone();
-                        let r = guarded(|| {
-                            owner.with(|| {
+                        // where the created context and the owner it is provided in are published (a region may publish again)
+                        let cell: Arc<Mutex<Option<(I18nContext<Locale>, Owner)>>> = Arc::new(Mutex::new(None));
+                        let builds = Arc::new(std::sync::atomic::AtomicUsize::new(0));
+                        let mut kept: Vec<Box<dyn std::any::Any>> = vec![];
+                        let make = {
+                            let cell = cell.clone();
+                            let builds = builds.clone();
+                            let default_getters = page.default_getters;
+                            let (header, accept, emitted) = (page.cookie_header.clone(), page.accept.clone(), page.emitted.clone());
+                            move || -> Option<Box<dyn std::any::Any>> {
+                                builds.fetch_add(1, std::sync::atomic::Ordering::SeqCst);
                                 // signals are arena items: create them under the owner (sandboxed arenas)
                                 let init_sig: Option<Signal<Locale>> = match initial_kind {
                                     0 => None,
@@ -528,22 +614,78 @@ pub fn execute(plan: &Plan, rng: &mut Rng) -> Outcome {
                                         Some(Signal::derive(move || s.get()))
                                     }
                                 };
-                                let ctx = init_i18n_subcontext_with_options::<Locale>(init_sig, cname.map(Into::into), Some(copts), Some(lopts));
-                                provide_context(ctx);
-                                ctx
-                            })
+                                match via {
+                                    0 => {
+                                        let (copts, lopts) = if default_getters {
+                                            (CookieOptions::<Locale>::default(), UseLocalesOptions::default())
+                                        } else {
+                                            let (header, accept, emitted) = (header.clone(), accept.clone(), emitted.clone());
+                                            (
+                                                CookieOptions::<Locale>::default().ssr_cookies_header_getter(move || Some(header.clone())).ssr_set_cookie(move |c| {
+                                                    emitted.lock().unwrap().push((c.name().to_string(), c.value().to_string()));
+                                                }),
+                                                UseLocalesOptions::default().ssr_lang_header_getter(move || Some(accept.clone())),
+                                            )
+                                        };
+                                        let ctx = init_i18n_subcontext_with_options::<Locale>(init_sig, cname.clone().map(Into::into), Some(copts), Some(lopts));
+                                        provide_context(ctx);
+                                        *cell.lock().unwrap() = Some((ctx, Owner::current().expect("owner")));
+                                        None
+                                    }
+                                    1 => {
+                                        #[allow(deprecated)]
+                                        let ctx = leptos_i18n::context::provide_i18n_subcontext::<Locale>(init_sig);
+                                        *cell.lock().unwrap() = Some((ctx, Owner::current().expect("owner")));
+                                        None
+                                    }
+                                    _ => {
+                                        let cell = cell.clone();
+                                        let children: leptos::children::Children = Box::new(move || {
+                                            // the island's children look their context up, as components do
+                                            let ctx = leptos_i18n::context::use_i18n_context::<Locale>();
+                                            *cell.lock().unwrap() = Some((ctx, Owner::current().expect("owner")));
+                                            ().into_any()
+                                        });
+                                        let view = leptos_i18n::context::i18n_sub_context_provider_island::<Locale>(children, if initial_kind == 1 { Some(init_l) } else { None }, cname.clone().map(Into::into));
+                                        Some(Box::new(view.into_any()) as Box<dyn std::any::Any>)
+                                    }
+                                }
+                            }
+                        };
+                        let r = guarded(|| {
+                            owner.with(|| {
+                                if in_region {
+                                    let eff = RenderEffect::new(move |_| {
+                                        // a region that is built again drops what it built before
+                                        make()
+                                    });
+                                    kept.push(Box::new(eff));
+                                } else if let Some(v) = make() {
+                                    kept.push(v);
+                                }
+                            });
+                            cell.lock().unwrap().clone()
                         });
+                        page.keep.append(&mut kept);
+                        // the owner the context's signals live in (the context may be provided in a child of it)
+                        page.keep.push(Box::new(owner.clone()));
+                        let r = match r {
+                            Ok(Some(x)) => Ok(x),
+                            Ok(None) => Err("the sub-context was not created (the region did not run)".to_string()),
+                            Err(e) => Err(e),
+                        };
                         match r {
                             Err(msg) => {
                                 violations.push(Violation { property: "C15", invariant: "no_panic", signature: "creating a sub-context panicked".into(), detail: msg });
                                 abort_load = true;
                             }
-                            Ok(ctx) => {
+                            Ok((ctx, provided_in)) => {
+                                stats.probe(match via { 0 => "sub_via_init", 1 => "sub_via_deprecated_provide", _ => "sub_via_island_fn" });
                                 // ---- C15: cookie > explicit initial > parent's current locale > (no parent) header/default
-                                let from_cookie = cookie_name.as_ref().filter(|_| COOKIES).and_then(|n| cookie_locale(&page.cookie_header, n));
+                                let from_cookie = cookie_name.as_ref().filter(|_| COOKIES && cookie_visible).and_then(|n| cookie_locale(&page.cookie_header, n));
                                 let from_init = match initial {
                                     0 => None,
-                                    1 => Some(*init_locale % 5),
+                                    1 => Some(*init_locale % LOCS.len()),
                                     _ => Some(page.sigs[wired_sig.unwrap()].val),
                                 };
                                 let from_parent = parent_idx.map(|p| page.ctxs[p].locale);
@@ -573,10 +715,18 @@ pub fn execute(plan: &Plan, rng: &mut Rng) -> Outcome {
                                 }
                                 let id = page.ctxs.len();
                                 page.ctxs.push(CtxM {
-                                    alive: true, locale: got, parent: parent_idx, owner, is_sub: true, cookie_name: cookie_name.clone().filter(|_| COOKIES), history: vec![got],
+                                    alive: true, locale: got, parent: parent_idx, owner: provided_in, is_sub: true, cookie_name: cookie_name.clone().filter(|_| COOKIES), history: vec![got],
                                     wired: wired_sig, memo_val: got, pending: None, ran_possible: false, cands: vec![], last_change_tracked: true,
                                 });
-                                page.views.push(ViewM { ctx: id, h: fixture::view_root(ctx) });
+                                if in_region {
+                                    // the application reaches the context through the region: whatever it currently provides
+                                    let cell2 = cell.clone();
+                                    page.views.push(ViewM { ctx: id, h: fixture::view_cell(std::rc::Rc::new(move || cell2.lock().unwrap().as_ref().expect("region built").0)) });
+                                    page.region_builds.push((id, builds.clone()));
+                                    stats.probe("sub_context_created_in_reactive_region");
+                                } else {
+                                    page.views.push(ViewM { ctx: id, h: fixture::view_root(ctx) });
+                                }
                                 stats.probe("sub_context_created");
                                 if !exec::ready_ids().is_empty() {
                                     stats.probe("sub_context_created_while_effects_pending");
@@ -589,7 +739,7 @@ pub fn execute(plan: &Plan, rng: &mut Rng) -> Outcome {
                     if page.sigs.len() >= 3 {
                         executed = false;
                     } else {
-                        let l = *l % 5;
+                        let l = *l % LOCS.len();
                         let sig = root.with(|| RwSignal::new(loc(l)));
                         page.sigs.push(SigM { sig, val: l });
                     }
@@ -607,7 +757,7 @@ pub fn execute(plan: &Plan, rng: &mut Rng) -> Outcome {
                 Op::Set { view, l } | Op::SetUntracked { view, l } => match pick_mod(&page.live_views(), *view) {
                     Some(v) => {
                         let tracked = matches!(op, Op::Set { .. });
-                        let l = *l % 5;
+                        let l = *l % LOCS.len();
                         let c = page.views[v].ctx;
                         let r = guarded(|| if tracked { (page.views[v].h.set)(loc(l)) } else { (page.views[v].h.set_untracked)(loc(l)) });
                         if let Err(msg) = r {
@@ -635,7 +785,7 @@ pub fn execute(plan: &Plan, rng: &mut Rng) -> Outcome {
                     let all: Vec<usize> = (0..page.sigs.len()).collect();
                     match pick_mod(&all, *sig) {
                         Some(s) if !page.ctxs.iter().any(|c| c.alive && c.wired == Some(s) && c.pending.is_some()) => {
-                            let l = *l % 5;
+                            let l = *l % LOCS.len();
                             page.sigs[s].sig.set(loc(l));
                             page.sigs[s].val = l;
                             if EFFECTS {
@@ -837,6 +987,11 @@ pub fn execute(plan: &Plan, rng: &mut Rng) -> Outcome {
                 stats.skipped_ops += 1;
                 continue;
             }
+            for (id, b) in &page.region_builds {
+                if page.ctxs[*id].alive && b.load(std::sync::atomic::Ordering::SeqCst) > 1 {
+                    stats.probe("reactive_region_built_again");
+                }
+            }
             // ---- task panics are events
             for (id, born, msg) in exec::take_panics() {
                 violations.push(Violation { property: "C16", invariant: "no_panic", signature: format!("a task spawned during {} panicked", born.rsplit(':').next().unwrap_or("")), detail: format!("task {id} ({born}): {msg}") });
@@ -912,7 +1067,18 @@ pub fn execute(plan: &Plan, rng: &mut Rng) -> Outcome {
                 c.history.push(x);
             }
         }
-        let emitted = page.emitted.lock().unwrap().clone();
+        #[allow(unused_mut)]
+        let mut emitted = page.emitted.lock().unwrap().clone();
+        #[cfg(feature = "world_ax")]
+        if page.default_getters {
+            // the Set-Cookie headers the integration would send
+            for h in response_options.0.read().headers.get_all(http::header::SET_COOKIE) {
+                let text = h.to_str().unwrap_or("");
+                if let Some((n, v)) = text.split(';').next().unwrap_or("").split_once('=') {
+                    emitted.push((n.trim().to_string(), v.trim().to_string()));
+                }
+            }
+        }
         for (name, value) in &emitted {
             stats.probe("set_cookie_emitted");
             // ---- C15/C13 by-product: what the server stores is a configured locale name this page's context held
@@ -934,6 +1100,31 @@ pub fn execute(plan: &Plan, rng: &mut Rng) -> Outcome {
         }
         if emitted.is_empty() {
             stats.probe("page_load_without_set_cookie");
+        }
+        // ---- persistence: the locale last set (tracked) on the only context using a cookie name is what the client stores
+        let names: std::collections::BTreeSet<String> = page.ctxs.iter().filter_map(|c| c.cookie_name.clone()).collect();
+        for name in &names {
+            let owners: Vec<&CtxM> = page.ctxs.iter().filter(|c| c.cookie_name.as_deref() == Some(name.as_str())).collect();
+            if owners.len() != 1 {
+                stats.probe("cookie_name_shared_by_several_contexts");
+                continue;
+            }
+            let c = owners[0];
+            if !c.alive || !c.last_change_tracked || c.history.len() < 2 || c.pending.is_some() {
+                continue;
+            }
+            let have = cookie_locale(&page.cookie_header, name);
+            let last = emitted.iter().rev().find(|(n, _)| n == name).map(|(_, v)| v.as_str());
+            if last == Some(LOCS[c.locale]) {
+                stats.probe("cookie_persistence_checked");
+            } else if last.is_none() && have == Some(c.locale) {
+                stats.probe("cookie_already_held_the_final_locale");
+            } else {
+                // leptos-use writes the server cookie from the second run of its effect on: whether a locale set before the
+                // effects first ran is written depends on the order the two effects run in. Counted, not judged: no claimed
+                // property covers persistence.
+                stats.probe("cookie_not_rewritten_after_a_set");
+            }
         }
         let (spawned, _, _) = exec::stats();
         stats.tasks_spawned += spawned;
